@@ -186,7 +186,7 @@ func inheritedFacts(f *ssa.Function, depth int) []fact {
 		return nil
 	}
 	sites := curSites.sites[f]
-	if len(sites) == 0 {
+	if len(sites) != 1 {
 		return nil
 	}
 	var acc []fact
@@ -289,14 +289,33 @@ func normCmp(cond ssa.Value, val bool) (cmp, bool) {
 	return cmp{op, x, y}, true
 }
 
-// hasFact: some guard fact of in satisfies pred.
+// hasFact: some guard fact of in satisfies pred. For an instruction inside a private
+// helper the fact may also be established by the callers: it then has to hold (in the
+// matcher's sense) at every call site of the helper.
 func hasFact(in ssa.Instruction, pred func(f fact) bool) bool {
-	for _, f := range guards(in) {
+	return hasFactRec(in, pred, 0)
+}
+
+func hasFactRec(in ssa.Instruction, pred func(f fact) bool, depth int) bool {
+	for _, f := range guardsOfBlock(in.Block()) {
 		if pred(f) {
 			return true
 		}
 	}
-	return false
+	fn := in.Parent()
+	if depth > 3 || !isPrivateHelper(fn) {
+		return false
+	}
+	sites := curSites.sites[fn]
+	if len(sites) == 0 {
+		return false
+	}
+	for _, s := range sites {
+		if !hasFactRec(s, pred, depth+1) {
+			return false
+		}
+	}
+	return true
 }
 
 // boolFact matches a fact on a boolean value (through negations).
